@@ -229,8 +229,16 @@ def _doy2date(g):
 
 
 add('Epoch.doy2date', 'call', E + '.doy2date', 'pure', _doy2date, 0.3, 30, 'Epoch')
-add('Epoch.leap_seconds', 'call', E + '.leap_seconds', 'pure',
-    lambda g: (None, [g.i(1950, 2100), g.i(1, 12)], {}), 0.6, 60, 'Epoch')
+def _leap_seconds(g):
+    y = g.i(1950, 2100)
+    if g.rng.random() < 0.5:
+        # the years in which the documented leap-second table starts and ends, and the years it covers
+        y['i'] = g.rng.choice([1971, 1972, 1972, 1973, 2015, 2016, 2016, 2016, 2017, 2017, 2018] +
+                              [g.rng.randint(1972, 2017)] * 6)
+    return None, [y, g.i(1, 12)], {}
+
+
+add('Epoch.leap_seconds', 'call', E + '.leap_seconds', 'pure', _leap_seconds, 1.0, 60, 'Epoch')
 add('Epoch.get_last_leap_second', 'call', E + '.get_last_leap_second', 'pure', lambda g: (None, [], {}), 0.3, 30, 'Epoch')
 add('Epoch.utc2local', 'call', E + '.utc2local', 'pure', lambda g: (None, [], {}), 1.5, 10, 'Epoch')
 add('Epoch.easter', 'call', E + '.easter', 'pure', lambda g: (None, [g.i(-4000, 9000)], {}), 0.3, 30, 'Epoch')
@@ -275,9 +283,20 @@ def _getdate_kw(g):
         return [], {}
     if r < 0.55:
         return [], {"utc": {"b": True}}
-    if r < 0.7:
+    if r < 0.68:
         return [], {"leap_seconds": g.num(10, 40)}
+    if r < 0.78:
+        # two keywords, spelled in either order (equal arguments either way)
+        kw = [("utc", {"b": g.rng.random() < 0.8}), ("leap_seconds", g.num(10, 40))]
+        if g.rng.random() < 0.5:
+            kw.reverse()
+        return [], dict(kw)
     g.probes.append('local_kw')
+    if g.rng.random() < 0.25:
+        kw = [("local", {"b": True}), ("leap_seconds", g.num(10, 40))]
+        if g.rng.random() < 0.5:
+            kw.reverse()
+        return [], dict(kw)
     return [], {"local": {"b": True}}
 
 
